@@ -345,7 +345,7 @@ func c16Judge(c c16Case, got []timedRec, emitted []time.Duration, cut time.Durat
 				return
 			}
 			// never once the source has terminated
-			if c.End != 0 && len(emitted) == len(c.Gaps) {
+			if c.End != 0 && len(emitted) == len(c.Gaps) && len(emitted) > 0 {
 				srcEnd := emitted[len(emitted)-1]
 				if term.At > srcEnd {
 					fail("timeout-after-source-terminated", fmt.Sprintf("%s: timeout raised at %v, the source had terminated at %v", desc, term.At, srcEnd))
@@ -406,6 +406,11 @@ var c16Ops = []string{"Timer", "Interval", "IntervalWithInitial", "RangeWithInte
 func c16Gen(t *rapid.T) c16Case {
 	op := rapid.SampledFrom(c16Ops).Draw(t, "op")
 	d := rapid.IntRange(1, 50).Draw(t, "d")
+	// a duration of zero is legal for the timer-based forms (the ticker-based ones
+	// reject it: time.NewTicker panics, BufferWithTime* say so themselves)
+	if (op == "Timer" || op == "Delay" || op == "DelayEach" || op == "Timeout") && rapid.IntRange(0, 5).Draw(t, "zero") == 0 {
+		d = 0
+	}
 	c := c16Case{Op: op, D: d, CutAt: -1}
 	if c16Creation[op] {
 		c.N = rapid.IntRange(0, 5).Draw(t, "n")
